@@ -614,6 +614,8 @@ func ruleExpect(w *World, r *Report, pf *patchFamily, scope func(*ssa.Function) 
 			if ok, w2 := x.multisetSchema(c, oldP); ok {
 				r.Ok(rule, key, cpos, w2)
 				continue
+			} else if w2 != "" {
+				why = w2
 			}
 			r.Bad(rule, key, cpos, why)
 		}
@@ -840,6 +842,38 @@ func (x *expectCtx) multisetSchema(c *ssa.Return, oldP *ssa.Parameter) (bool, st
 				})
 			}
 		})
+		// the underflow test looks at the counts after the removals only: no
+		// count is raised from the hunk's added values on a path that still
+		// leads to the test (a value that is removed and re-added by the same
+		// hunk would mask a missing element)
+		if newP := x.pf.roleParam(x.fn, "newValues"); newP != nil && dec {
+			masked := ""
+			allInstrs(x.fn, func(in ssa.Instruction) {
+				raises := false
+				switch mu := in.(type) {
+				case *ssa.MapUpdate:
+					raises = mu.Map == rg.X && x.d.HasRoot(mu.Key, newP)
+				case *ssa.Call:
+					if sf := staticCallee(mu); sf != nil && sf.Blocks != nil {
+						hasMap, hasNew := false, false
+						for _, a := range mu.Call.Args {
+							if a == rg.X {
+								hasMap = true
+							} else if !isIntType(a.Type()) && x.d.HasRoot(a, newP) {
+								hasNew = true
+							}
+						}
+						raises = hasMap && hasNew
+					}
+				}
+				if raises && reachFrom(in.Block(), nil)[l.Header] {
+					masked = x.w.Pos(in.Pos())
+				}
+			})
+			if masked != "" {
+				return false, "the counts are raised from the added values (at " + masked + ") before the test for a negative count: an element that is removed and re-added by the same hunk is not missed when absent"
+			}
+		}
 		if dec {
 			return true, "multiset schema: the count of every removed value is decremented and a negative count is an error before the commit"
 		}
@@ -885,7 +919,7 @@ func ruleDescend(w *World, r *Report, pf *patchFamily) {
 					}
 				}
 			case *ssa.Call:
-				if sf := staticCallee(c); sf != nil && sf.Name() == "isLeaf" && len(c.Call.Args) == 1 && strip(c.Call.Args[0]) == ssa.Value(pa) {
+				if sf := staticCallee(c); sf != nil && w.fnIs(sf, "isLeaf") && len(c.Call.Args) == 1 && strip(c.Call.Args[0]) == ssa.Value(pa) {
 					leaf[tE] = true
 				}
 			}
@@ -1150,5 +1184,69 @@ func ruleKeyBind(w *World, r *Report, pf *patchFamily) {
 	})
 	if n < 2 {
 		r.Bad(rule, fnName(fn)+":instance-floor", w.Pos(fn.Pos()), fmt.Sprintf("only %d member-selection digests found in the set patch", n))
+	}
+}
+
+// ruleCreateOnlyMerge — containers are invented only by merge patching. In
+// the patch family a fresh empty object (to stand for a missing parent) may
+// be produced only where the strategy cannot be strict: behind an edge on
+// which merge strategy is known, or in a block that is unreachable when the
+// strategy parameter is the strict constant (closed enumeration). A strict
+// hunk whose path leads through a missing member must be rejected by the
+// nested patch of void, not satisfied by a made-up object.
+func ruleCreateOnlyMerge(w *World, r *Report, pf *patchFamily, scope func(*ssa.Function) bool) {
+	const rule = "R-CREATE"
+	ea := newErrAnalysis(w)
+	n := 0
+	for _, fn := range pf.functions() {
+		if scope != nil && !scope(fn) {
+			continue
+		}
+		x := &expectCtx{w: w, pf: pf, fn: fn, d: NewDeriv(w, fn), ea: ea, lps: loopsOf(fn)}
+		cut := x.mergeEdges()
+		if _, closed := closedEnums(w, pf.pkg)[namedOf(pf.roleParam(fn, "strategy").Type())]; closed {
+			for e := range x.strictInfeasible() {
+				cut[e] = true
+			}
+		}
+		k := 0
+		allInstrs(fn, func(in ssa.Instruction) {
+			v, ok := in.(ssa.Value)
+			if !ok || strip(v) != v {
+				return
+			}
+			fresh := false
+			switch y := v.(type) {
+			case *ssa.MakeMap:
+				fresh = typeName(y.Type()) == "jsonObject"
+				for _, ref := range *y.Referrers() {
+					if _, isUpd := ref.(*ssa.MapUpdate); isUpd {
+						fresh = false // built with members: not a stand-in for a missing parent
+					}
+				}
+			case *ssa.Call:
+				sf := staticCallee(y)
+				if sf != nil && sf.Blocks != nil && fnPkg(sf) == pf.pkg.Pkg && len(sf.Params) == 0 && sf.Signature.Results().Len() == 1 && typeName(sf.Signature.Results().At(0).Type()) == "jsonObject" {
+					fresh = true
+					for _, ret := range returnsOf(sf) {
+						if _, isMM := strip(ret.Results[0]).(*ssa.MakeMap); !isMM {
+							fresh = false
+						}
+					}
+				}
+			}
+			if !fresh {
+				return
+			}
+			n++
+			k++
+			r.Fn(fnName(fn))
+			r.Check(len(cut) > 0 && cutsOff(fn, cut, in.Block()), rule, fmt.Sprintf("%s:fresh-object#%d", fnName(fn), k), w.Pos(in.Pos()),
+				"a fresh empty object is produced only where the strategy cannot be strict",
+				"a fresh empty object (a stand-in for a missing parent) can be produced under strict strategy: a strict hunk whose path leads through a missing member is applied to a made-up parent instead of being rejected")
+		})
+	}
+	if n < 2 {
+		r.Bad(rule, pf.tag+":instance-floor", "-", fmt.Sprintf("only %d fresh-object sites found in the patch family", n))
 	}
 }
